@@ -78,6 +78,21 @@ def divVal (d : Dialect) (op : Op) (lt rt : Ty) (a b : Val) : Val :=
     else fnVal "FLOOR" [Abs.div a b]
   | _ => .null
 
+/-- `x ILIKE y` as the dialect spells it: PostgreSQL has the operator, every other dialect
+    renders `lower(x) LIKE lower(y)` -/
+def ilikeTV (d : Dialect) (a b : Val) (esc : Option String) : TV :=
+  if d = .postgresql then Abs.ilike a b esc
+  else Abs.like (fnVal "lower" [a]) (fnVal "lower" [b]) esc
+
+/-- value of the LIKE family (`NOT LIKE` is the three-valued negation of `LIKE`) -/
+def likeVal (d : Dialect) (op : Op) (esc : Option String) (a b : Val) : Val :=
+  match op with
+  | .like_op => ofTV (Abs.like a b esc)
+  | .not_like_op => ofTV (not3 (Abs.like a b esc))
+  | .ilike_op => ofTV (ilikeTV d a b esc)
+  | .not_ilike_op => ofTV (not3 (ilikeTV d a b esc))
+  | _ => .null
+
 mutual
 def evalCore (env : String → Val) (d : Dialect) : SaExpr → Val
   | .col n _ => env n
@@ -87,6 +102,10 @@ def evalCore (env : String → Val) (d : Dialect) : SaExpr → Val
   | .false_ => .int 0
   | .binary .truediv l r _ _ _ => divVal d .truediv (tyOf l) (tyOf r) (evalCore env d l) (evalCore env d r)
   | .binary .floordiv l r _ _ _ => divVal d .floordiv (tyOf l) (tyOf r) (evalCore env d l) (evalCore env d r)
+  | .binary .like_op l r _ esc _ => likeVal d .like_op esc (evalCore env d l) (evalCore env d r)
+  | .binary .not_like_op l r _ esc _ => likeVal d .not_like_op esc (evalCore env d l) (evalCore env d r)
+  | .binary .ilike_op l r _ esc _ => likeVal d .ilike_op esc (evalCore env d l) (evalCore env d r)
+  | .binary .not_ilike_op l r _ esc _ => likeVal d .not_ilike_op esc (evalCore env d l) (evalCore env d r)
   | .binary op l r _ _ _ => binVal op (evalCore env d l) (evalCore env d r)
   | .clist op cs _ _ _ => foldVals op (evalCoreList env d cs)
   | .unary op e _ => unVal op (evalCore env d e)
@@ -152,6 +171,7 @@ def evalBoolU (env : String → Val) (d : Dialect) : U → TV
        if k = .eq ∨ k = .is_ then evalCmp .is_ (evalNumU env d a) .null
        else evalCmp .is_not (evalNumU env d a) .null
      | _ => evalCmp k.op (evalNumU env d a) (evalNumU env d b))
+  | .like k esc a b => truth (likeVal d k.op esc (evalNumU env d a) (evalNumU env d b))
   | .not_ a => not3 (evalBoolU env d a)
   | .and_ cs => andAll (evalBoolUList env d cs)
   | .or_ cs => orAll (evalBoolUList env d cs)
